@@ -11,7 +11,7 @@ import sys
 import time
 import traceback
 
-from . import build, sym, model, rules, props
+from . import build, sym, model, rules, props, wit
 
 VERIF = build.VERIF
 from . import meta
@@ -37,15 +37,20 @@ def _work(job):
         F = sym.Facts(fpath)
         ex = sym.Exec(F)
         fn = props.E_PROPS[prop]
+        gens = []
         for d in decls:
             g = model.Gen(F, ex, d)
             if g.adt is None:
                 rep.ob('R-EXPAND', False, g, 'declaration has no generated module/struct in the facts', {})
                 continue
+            gens.append(g)
             try:
                 fn(rep, g)
             except Exception as e:  # a rule crashing is a broken check, not a verdict
                 rep.ob('R-INTERNAL', None, g, f'rule crashed: {e!r}', {'tb': traceback.format_exc()[-1500:]})
+        cfn = props.CRATE_PROPS.get(prop)
+        if cfn and gens:
+            cfn(rep, F, gens)
     except Exception as e:
         return {'crate': cname, 'error': repr(e), 'tb': traceback.format_exc()}
     return {
@@ -95,16 +100,45 @@ def check(prop, tier):
     if errs:
         print(f'check {prop}: worker failed: {errs[0]["error"]}\n{errs[0]["tb"]}')
         return 2
+    # ---- W-level: compile-verdict witnesses
+    wstats = {'witnesses': 0, 'pass_expected': 0, 'fail_expected': 0}
+    wfind = []
+    wsamples = []
+    if prop in props.W_PROPS:
+        ws = props.W_PROPS[prop]()
+        try:
+            verdicts = wit.run_witnesses(ws)
+        except RuntimeError as e:
+            print(f'check {prop}: cannot build witness libraries: {e}')
+            return 2
+        for w in ws:
+            v = verdicts[w['id']]
+            ok, why = wit.verdict_matches(v, w['expect'])
+            if ok and w.get('line') and w['expect'] != 'pass':
+                # the rejection must be caused by the offending line itself
+                codes = w['expect'].get('fail')
+                at = [e for e in v['errors'] if e['line'] == w['line'] and (not codes or e['code'] in codes)]
+                if not at:
+                    ok, why = False, f'rejected, but not at the offending line {w["line"]}: ' + '; '.join(f"{e['code']}@{e['line']}" for e in v['errors'][:4])
+            wstats['witnesses'] += 1
+            wstats['pass_expected' if w['expect'] == 'pass' else 'fail_expected'] += 1
+            if len(wsamples) < 6:
+                wsamples.append({'witness': w['id'], 'what': w['what'], 'expect': w['expect'], 'verdict': why})
+            if not ok:
+                wfind.append({'key': f'{prop}|W|{w["id"]}|{w["what"]}', 'prop': prop, 'rule': 'W', 'decl_key': w['id'], 'what': w['what'] + ': ' + why,
+                              'detail': {'source': w['src'], 'expect': w['expect'], 'errors': v['errors'][:5]}, 'decl_name': None})
     known = known_findings()
-    findings = [f for r in results for f in r['findings']]
+    findings = [f for r in results for f in r['findings']] + wfind
     undecided = [u for r in results for u in r['undecided']]
-    obligations = sum(r['obligations'] for r in results)
-    discharged = sum(r['discharged'] for r in results)
+    obligations = sum(r['obligations'] for r in results) + wstats['witnesses']
+    discharged = sum(r['discharged'] for r in results) + wstats['witnesses'] - len(wfind)
     instances = {}
     for r in results:
         for k, v in r['instances'].items():
             instances[k] = instances.get(k, 0) + v
     samples = [s for r in results for s in r['samples']][:10]
+    if wstats['witnesses']:
+        instances['W'] = wstats['witnesses']
     new, hit = [], []
     for f in findings:
         if f['key'] in known:
@@ -125,7 +159,7 @@ def check(prop, tier):
             'explanation': 'static analysis of the macro-expanded corpus: MIR path enumeration vs reference model',
             'obligations': obligations, 'discharged': discharged, 'undecided': len(undecided),
             'declarations': sum(r['decls'] for r in results), 'bodies_analysed': sum(r['bodies'] for r in results),
-            'rule_instances': instances, 'samples': samples, 'known_findings_hit': len(hit),
+            'rule_instances': instances, 'samples': samples + wsamples, 'witnesses': wstats, 'known_findings_hit': len(hit),
             'programs': sum(r['decls'] for r in results), 'disagreements_checked': obligations,
             'evaluations': obligations, 'distinct_nontrivial': sum(r['decls'] for r in results),
             'undecided_samples': undecided[:10],
